@@ -89,6 +89,15 @@ def alloc_sites(prog, an, f):
             else:
                 req = _c(f, ops[0])
             out.append((i, req, True))
+        elif n in getattr(an, "out_allocs", {}):
+            g = prog.resolve(f.unit, n)
+            s = an.summaries[g.key]
+            req = None
+            for (iid, fn, sz, w) in s.allocs:
+                ks = _args_in(sz)
+                if len(ks) == 1:
+                    req = _c(f, i["ops"][ks.pop()])
+            out.append((i, req, True))
         elif n in an.fresh_fns:
             g = prog.resolve(f.unit, n)
             s = an.summaries[g.key]
@@ -117,9 +126,30 @@ def _c(f, op):
     return None
 
 
+def shape_ptr(t):
+    return t.endswith("*")
+
+
 def alloc_object_type(f, call):
-    """struct type the allocation result is used as (first struct bitcast of the call result)."""
+    """struct type the allocation result is used as (first struct bitcast of the call result; for an allocator
+    that stores the block through a pointer argument: of what is loaded back from that place)."""
     uses = f.uses()
+    if not shape_ptr(call.get("type", "")):
+        from ..mem import AddrMap
+        am = AddrMap(f)
+        outs = [am.of(o) for o in call["ops"] if o[0] in ("i", "a")]
+        keys = {repr((a.root, tuple(s.off for s in a.segs))) for a in outs if a is not None}
+        for i in f.all_insts():
+            if i["op"] == "load" and i["type"].endswith("*"):
+                a = am.of(i["ops"][0])
+                if a is not None and repr((a.root, tuple(s.off for s in a.segs))) in keys:
+                    for u in uses.get(i["id"], []):
+                        j = f.insts[u]
+                        if j["op"] in CASTS:
+                            st, d = strip_struct(j["type"])
+                            if st and d == 1:
+                                return cname_of(st)
+        return None
     for u in uses.get(call["id"], []):
         i = f.insts[u]
         if i["op"] in CASTS:
